@@ -13,7 +13,7 @@ RULE = ('tree units: every sequence of short-read decisions (stateless re-execut
         '_body_read; random units: bodies up to 300 kB x CL below/equal/above x buffer sizes x fragmentation '
         'policies through Request.body and through Ombott.__call__. Non-trivial = at least one read was '
         'answered short or CL != len(data); distinct = distinct (len, CL, buffer, read-size sequence).')
-REQUIRED = ['short_read_cases', 'spilled_to_file', 'in_memory', 'early_eof_cases', 'longer_stream_cases',
+REQUIRED = ['multipart_content_type_on_arbitrary_bytes', 'short_read_cases', 'spilled_to_file', 'in_memory', 'early_eof_cases', 'longer_stream_cases',
             'wsgi_cases', 'rewind_checked']
 EXHAUSTIVE = {'quick': False, 'thorough': False,
               'quick_note': 'tree units are exhaustive for body<=11, CL<=13, buffer<=5',
@@ -131,7 +131,20 @@ def one_case(ctx, data, cl, buf, policy_desc, mode, rng=None, wit=None):
         body_type = type(body).__name__
         second = got
     else:
-        env = make_environ('POST', '/b', stream=st, content_length=cl)
+        # the raw body is byte-exact whatever the declared content type makes the framework do while buffering
+        # (a multipart scanner runs beside the read loop and may reject what it sees)
+        ctype = None
+        if rng is not None:
+            ctype = rng.choice([None, None, 'multipart/form-data; boundary=B', 'multipart/form-data; boundary=' + 'x' * 40, 'application/json',
+                                'application/x-www-form-urlencoded', 'multipart/mixed; boundary="q"', 'text/plain; charset=utf-16'])
+        elif wit and wit['unit'].get('ctype'):
+            ctype = wit['unit']['ctype']
+        if ctype:
+            ctx.count('with_content_type')
+            if ctype.startswith('multipart/'):
+                ctx.count('multipart_content_type_on_arbitrary_bytes')
+            wit['unit']['ctype'] = ctype
+        env = make_environ('POST', '/b', stream=st, content_length=cl, content_type=ctype)
         cfg = {'max_memfile_size': buf}
         if mode == 'request':
             req = ombott.Request(env, config=cfg)
@@ -214,7 +227,7 @@ def random_unit(ctx, unit):
         mode = rng.choice(['direct', 'request', 'request', 'wsgi'])
         wit = {'unit': {'kind': 'one', 'data_len': n, 'cl': cl, 'buf': buf, 'policy': list(pd), 'mode': mode,
                         'data_seed': dseed}}
-        st = one_case(ctx, data, cl, buf, pd, mode, wit=wit)
+        st = one_case(ctx, data, cl, buf, pd, mode, rng=rng, wit=wit)
         if st is not None and len(ctx.samples) < 6 and i % 97 == 0:
             ctx.sample({'len': n, 'CL': cl, 'buf': buf, 'policy': pd[0], 'mode': mode, 'first_reads': st.reads[:5]})
 
